@@ -228,6 +228,23 @@ op('check_cfg_derivation[own]', 'notebook_cfg', ('cnf', 'genword'), 'verdict',
    fn=_checker('notebook_cfg', 'check_cfg_derivation', lambda G, w: (_m('cfg_algorithms').cfg_print_simple(G), ' => '.join(''.join(e) for e in _m('cfg_algorithms').cfg_derive_word(G, w, 'leftmost')), w, 'leftmost')))
 
 
+# parsers on fixed texts (well-formed and ill-formed): a failed parse must not leave anything behind for the next one
+TEXTS = {
+    'cfg': [('bad', 'S -> aB'), ('eps', 'S -> aSb | ε'), ('us', 'S -> aSb | _'), ('decl', 'epsilon = e\nS -> aS | e')],
+    'dfa': [('bad', 'initial s0\ns0 s1 a\ns0 s0 a'), ('ok', 'initial s0\nfinal s1\ns0 s1 a\ns1 s1 a')],
+    'nfa': [('bad', 'initial s0 s1\ns0 s1 a'), ('eps', 'initial s0\nfinal s1\ns0 s1 ε\ns1 s1 a'), ('us', 'initial s0\nfinal s1\ns0 s1 _ a')],
+    'pda': [('bad', 'initial s0\ns0 s1 a,x'), ('eps', 'initial s0\nfinal s1\ns0 s1 a,εx\ns1 s1 ε,xε'), ('us', 'initial s0\nfinal s0\ns0 s0 a,_x')],
+    'tm': [('bad', 'initial s0\ns0 s1 a'), ('ok', 'initial s0\naccept qa\nreject qr\ns0 qa a_,R\ns0 s0 __,R')],
+}
+_PARSERS = {'cfg': ('cfg_algorithms', 'parse_simple_cfg'), 'dfa': ('dfa_algorithms', 'parse_dfa'), 'nfa': ('nfa_algorithms', 'parse_nfa'),
+            'pda': ('pda_algorithms', 'parse_pda'), 'tm': ('tm_algorithms', 'parse_tm')}
+for _k, _lst in TEXTS.items():
+    for _tag, _txt in _lst:
+        op('{}[{}]'.format(_PARSERS[_k][1], _tag), _PARSERS[_k][0], (), _k if _k != 'tm' else 'text:tm',
+           fn=(lambda k, txt: (lambda: (getattr(_m(_PARSERS[k][0]), _PARSERS[k][1])(txt) if k != 'tm' else _m('tm_algorithms').print_tm(_m('tm_algorithms').parse_tm(txt)))))(_k, _txt))
+op('check_cfg_accepts_rejects[eps]', 'notebook', (), 'verdict', fn=lambda: verdict_of(_m('notebook').check_cfg_accepts_rejects, 'S -> aSb | ε', 'ε ab aabb', 'a b ba'))
+
+
 def get_fn(o):
     if o['fn'] is not None:
         return o['fn']
